@@ -234,7 +234,8 @@ def c07_range_override_stale_member(w, v):
     if 'stale-member' in parts:
         if parts[0] == 'restricted-outputs-differ':
             return bool(w.get('stale_member'))
-        return bool(w.get('stale_member')) and w.get('observed') == w.get('own_value')
+        return bool(w.get('stale_member')) and w.get('observed') in (
+            w.get('own_value'), w.get('own_value_unpopulated_members_unseen'))
     if 'downstream-of-stale-member' in parts:
         return bool(w.get('downstream_of_stale_member'))
     return False
